@@ -18,6 +18,26 @@ use std::collections::HashMap;
 pub struct Mutator<'a> {
     pub names: &'a NamesRef<'a>,
     pub applied: Vec<&'static str>,
+    /// apply only this non-canonical form (wherever it fits), so that every form also occurs alone
+    pub focus: Option<&'static str>,
+}
+
+/// all the forms `mutate` can produce (the names it notes)
+pub const FORMS: &[&str] = &[
+    "bare value in a union position", "wrong union index", "string for an enum", "enum index out of range", "enum index/symbol mismatch",
+    "unknown symbol string", "int for long", "long for int", "float for double", "double for float", "int for a logical int",
+    "long for a logical long", "bytes for fixed", "fixed of the wrong size", "fixed whose length field disagrees with its bytes",
+    "bytes for decimal", "fixed for decimal", "fixed(12) for duration", "fixed(12) with 3 bytes for duration",
+    "string for uuid", "32-char non-uuid string for uuid", "bytes for uuid", "fixed for uuid", "map for a record",
+    "record fields reordered", "extra record field", "nullable field left out", "required field left out", "value of another type",
+];
+
+/// is the form `what` applied here?
+fn want(focus: Option<&'static str>, rate: u32, rng: &mut Rng, what: &'static str) -> bool {
+    match focus {
+        Some(f) => f == what && rng.chance(3, 4),
+        None => rng.chance(rate, 100),
+    }
 }
 
 impl Mutator<'_> {
@@ -27,7 +47,6 @@ impl Mutator<'_> {
         }
     }
     pub fn mutate(&mut self, rng: &mut Rng, s: &Schema, ns: Option<&str>, v: &Value, rate: u32) -> Value {
-        let hit = |rng: &mut Rng| rng.chance(rate, 100);
         match (s, v) {
             (Schema::Ref { name }, _) => {
                 let fq: Name = name.fully_qualified_name(ns).into_owned();
@@ -42,10 +61,16 @@ impl Mutator<'_> {
             (Schema::Union(u), Value::Union(i, inner)) => {
                 let b = &u.variants()[*i as usize];
                 let m = self.mutate(rng, b, ns, inner, rate);
-                if hit(rng) {
-                    self.note("bare value in a union position");
+                if want(self.focus, rate, rng, "bare value in a union position") {
+                    // the encoder has union handling for bare Null and Record values (they are written with the branch
+                    // index); every other kind is the recorded finding
+                    self.note(match &m {
+                        Value::Record(_) => "bare record in a union position",
+                        Value::Null => "bare null in a union position",
+                        _ => "bare value in a union position",
+                    });
                     m
-                } else if hit(rng) && u.variants().len() > 1 {
+                } else if want(self.focus, rate, rng, "wrong union index") && u.variants().len() > 1 {
                     self.note("wrong union index");
                     Value::Union((*i + 1) % u.variants().len() as u32, Box::new(m))
                 } else {
@@ -53,59 +78,59 @@ impl Mutator<'_> {
                 }
             }
             (Schema::Enum(e), Value::Enum(i, sym)) => {
-                if hit(rng) {
+                if want(self.focus, rate, rng, "string for an enum") {
                     self.note("string for an enum");
                     Value::String(sym.clone())
-                } else if hit(rng) {
+                } else if want(self.focus, rate, rng, "enum index out of range") {
                     self.note("enum index out of range");
                     Value::Enum(e.symbols.len() as u32 + 3, "ZZ_unknown".into())
-                } else if hit(rng) && e.symbols.len() > 1 {
+                } else if want(self.focus, rate, rng, "enum index/symbol mismatch") && e.symbols.len() > 1 {
                     self.note("enum index/symbol mismatch");
                     Value::Enum((*i + 1) % e.symbols.len() as u32, sym.clone())
-                } else if hit(rng) {
+                } else if want(self.focus, rate, rng, "unknown symbol string") {
                     self.note("unknown symbol string");
                     Value::String("ZZ_unknown".into())
                 } else {
                     v.clone()
                 }
             }
-            (Schema::Long, Value::Long(n)) if hit(rng) && i32::try_from(*n).is_ok() => {
+            (Schema::Long, Value::Long(n)) if want(self.focus, rate, rng, "int for long") && i32::try_from(*n).is_ok() => {
                 self.note("int for long");
                 Value::Int(*n as i32)
             }
-            (Schema::Int, Value::Int(n)) if hit(rng) => {
+            (Schema::Int, Value::Int(n)) if want(self.focus, rate, rng, "long for int") => {
                 self.note("long for int");
                 Value::Long(*n as i64)
             }
-            (Schema::Double, Value::Double(x)) if hit(rng) => {
+            (Schema::Double, Value::Double(x)) if want(self.focus, rate, rng, "float for double") => {
                 self.note("float for double");
                 Value::Float(*x as f32)
             }
-            (Schema::Float, Value::Float(x)) if hit(rng) => {
+            (Schema::Float, Value::Float(x)) if want(self.focus, rate, rng, "double for float") => {
                 self.note("double for float");
                 Value::Double(*x as f64)
             }
-            (Schema::Date, Value::Date(n)) | (Schema::TimeMillis, Value::TimeMillis(n)) if hit(rng) => {
+            (Schema::Date, Value::Date(n)) | (Schema::TimeMillis, Value::TimeMillis(n)) if want(self.focus, rate, rng, "int for a logical int") => {
                 self.note("int for a logical int");
                 Value::Int(*n)
             }
             (Schema::TimeMicros, Value::TimeMicros(n)) | (Schema::TimestampMillis, Value::TimestampMillis(n))
             | (Schema::TimestampMicros, Value::TimestampMicros(n)) | (Schema::TimestampNanos, Value::TimestampNanos(n))
             | (Schema::LocalTimestampMillis, Value::LocalTimestampMillis(n)) | (Schema::LocalTimestampMicros, Value::LocalTimestampMicros(n))
-            | (Schema::LocalTimestampNanos, Value::LocalTimestampNanos(n)) if hit(rng) => {
+            | (Schema::LocalTimestampNanos, Value::LocalTimestampNanos(n)) if want(self.focus, rate, rng, "long for a logical long") => {
                 self.note("long for a logical long");
                 Value::Long(*n)
             }
             (Schema::Fixed(_), Value::Fixed(n, b)) => {
-                if hit(rng) {
+                if want(self.focus, rate, rng, "bytes for fixed") {
                     self.note("bytes for fixed");
                     Value::Bytes(b.clone())
-                } else if hit(rng) {
+                } else if want(self.focus, rate, rng, "fixed of the wrong size") {
                     self.note("fixed of the wrong size");
                     let mut b2 = b.clone();
                     b2.push(0);
                     Value::Fixed(n + 1, b2)
-                } else if hit(rng) && *n > 0 {
+                } else if want(self.focus, rate, rng, "fixed whose length field disagrees with its bytes") && *n > 0 {
                     self.note("fixed whose length field disagrees with its bytes");
                     Value::Fixed(*n, b[..n - 1].to_vec())
                 } else {
@@ -114,17 +139,17 @@ impl Mutator<'_> {
             }
             (Schema::Decimal(_), Value::Decimal(d)) => {
                 let bytes: Vec<u8> = <Vec<u8>>::try_from(d).unwrap_or_default();
-                if hit(rng) {
+                if want(self.focus, rate, rng, "bytes for decimal") {
                     self.note("bytes for decimal");
                     Value::Bytes(bytes)
-                } else if hit(rng) {
+                } else if want(self.focus, rate, rng, "fixed for decimal") {
                     self.note("fixed for decimal");
                     Value::Fixed(bytes.len(), bytes)
                 } else {
                     v.clone()
                 }
             }
-            (Schema::Duration(_), Value::Duration(d)) if hit(rng) => {
+            (Schema::Duration(_), Value::Duration(d)) if want(self.focus, rate, rng, "fixed(12) for duration") => {
                 let raw: [u8; 12] = (*d).into();
                 if rng.chance(1, 2) {
                     self.note("fixed(12) for duration");
@@ -134,7 +159,7 @@ impl Mutator<'_> {
                     Value::Fixed(12, raw[..3].to_vec())
                 }
             }
-            (Schema::Uuid(u), Value::Uuid(id)) if hit(rng) => match u {
+            (Schema::Uuid(u), Value::Uuid(id)) if want(self.focus, rate, rng, "string for uuid") => match u {
                 apache_avro::schema::UuidSchema::String => {
                     if rng.chance(1, 2) {
                         self.note("string for uuid");
@@ -161,7 +186,7 @@ impl Mutator<'_> {
                 let mut out: Vec<(String, Value)> = vec![];
                 for (f, (n, fv)) in r.fields.iter().zip(fs) {
                     let m = self.mutate(rng, &f.schema, rns.as_deref(), fv, rate);
-                    if f.is_nullable() && hit(rng) {
+                    if f.is_nullable() && want(self.focus, rate, rng, "nullable field left out") {
                         self.note("nullable field left out");
                         continue;
                     }
@@ -171,7 +196,7 @@ impl Mutator<'_> {
                     }
                     out.push((n.clone(), m));
                 }
-                if hit(rng) && out.len() > 1 {
+                if want(self.focus, rate, rng, "record fields reordered") && out.len() > 1 {
                     self.note("record fields reordered");
                     out.reverse();
                 }
@@ -179,7 +204,7 @@ impl Mutator<'_> {
                     self.note("extra record field");
                     out.push(("zz_extra".into(), Value::Null));
                 }
-                if hit(rng) {
+                if want(self.focus, rate, rng, "map for a record") {
                     self.note("map for a record");
                     Value::Map(out.into_iter().collect::<HashMap<_, _>>())
                 } else {
@@ -283,11 +308,14 @@ pub fn run(args: &[String]) -> i32 {
         r#"[{"type":"fixed","name":"F","size":2},{"type":"bytes","logicalType":"decimal","precision":4,"scale":1},"double"]"#,
         r#"{"type":"record","name":"L","fields":[{"name":"v","type":"long"},{"name":"next","type":["null","L"]}]}"#,
         r#"{"type":"bytes","logicalType":"big-decimal"}"#,
+        // a union whose record branch is a REFERENCE (second use of a named type; recursion)
+        r#"{"type":"record","name":"W","fields":[{"name":"p","type":{"type":"record","name":"P","fields":[{"name":"x","type":"int"},{"name":"y","type":"int"}]}},{"name":"q","type":["P","null"]},{"name":"r","type":{"type":"array","items":["null","P"]}}]}"#,
+        r#"{"type":"record","name":"ns.T","fields":[{"name":"v","type":"int"},{"name":"kids","type":{"type":"array","items":["ns.T","string"]}}]}"#,
     ];
     let mut cat_i = 0usize;
     while done < n {
         let mut crng = rng.fork();
-        let from_catalogue = cat_i < catalogue.len() * 6;
+        let from_catalogue = cat_i < catalogue.len();
         let (text, schema) = if from_catalogue {
             let t = catalogue[cat_i % catalogue.len()];
             cat_i += 1;
@@ -304,10 +332,22 @@ pub fn run(args: &[String]) -> i32 {
         }
         let names_s = wire::names_str(names);
         let schema_s = wire::schema_str(&schema);
-        for round in 0..4 {
-            let mut mu = Mutator { names, applied: vec![] };
-            let rate = if from_catalogue { [0u32, 100, 100, 50][round] } else { [0u32, 15, 35, 60][round] };
-            let v = mu.mutate(&mut crng, &schema, None, &base, rate);
+        let rounds = if from_catalogue { 2 + 3 * FORMS.len() } else { 4 };
+        for round in 0..rounds {
+            // catalogue: canonical, every form at once, then each form alone; generated schemas: increasing rates
+            let focus = if from_catalogue && round >= 2 { Some(FORMS[(round - 2) % FORMS.len()]) } else { None };
+            // (focused rounds draw a fresh value each, so that the form meets every shape of value)
+            let fresh;
+            let base = if focus.is_some() {
+                fresh = vg.value(&mut crng, &schema, None, 0);
+                &fresh
+            } else {
+                &base
+            };
+            let mut mu = Mutator { names, applied: vec![], focus };
+            let rate = if from_catalogue { [0u32, 100][round.min(1)] } else { [0u32, 15, 35, 60][round] };
+
+            let v = mu.mutate(&mut crng, &schema, None, base, rate);
             done += 1;
             let forms = if mu.applied.is_empty() { "canonical".to_string() } else { mu.applied.join("; ") };
             for a in &mu.applied {
